@@ -279,10 +279,90 @@ def _exc_case(rng, cls):
     return c
 
 
+BIG = 2 ** 60          # far beyond 2^53: an int time that a float cannot hold exactly
+
+
+def _bigint_case(rng, cls):
+    """int times above 2^53 (exact in Python ints and in the model's Z, not in a float): neighbouring instants BIG+k must stay
+    distinct and ordered.  DEVSimulator: events at BIG+k, run_until to int horizons in between (the clock becomes an int),
+    small int deltas afterwards; ABMSimulator (which steps every tick) only schedules, peeks and cancels up there."""
+    tag = [0]
+
+    def nt():
+        tag[0] += 1
+        return tag[0]
+
+    ops = []
+    ks = [rng.randint(0, 6) for _ in range(rng.randint(3, 7))]
+    for k in ks:
+        ops.append(["sched", "abs", (BIG + k) * S, False, rng.choice("HDDL"), nt(), rng.randrange(4), []])
+        if rng.random() < 0.3:
+            ops.append(["peek", rng.randint(1, 5)])
+    if rng.random() < 0.5:
+        ops.append(["cancel", rng.randint(1, tag[0])])
+    ops.append(["peek", len(ks) + 1])
+    if cls == "DEVS":
+        for h in sorted(rng.sample(range(0, 8), 3)):
+            ops.append(["until", (BIG + h) * S, False])
+            if rng.random() < 0.6:
+                ops.append(["sched", "rel", rng.randint(0, 3) * S, False, rng.choice("HDL"), nt(), rng.randrange(4),
+                            [["sched", "abs", (BIG + h + rng.randint(0, 3)) * S, False, "D", nt(), 0, []]]])
+            if rng.random() < 0.4:
+                ops.append(["next"])
+            if rng.random() < 0.4:
+                ops.append(["sched", "abs", (BIG + h - 1) * S, False, "D", nt(), 0, []])      # one tick in the past up there
+        ops.append(["until", (BIG + 12) * S, False])
+    else:
+        ops.append(["until", rng.randint(1, 3) * S, False])
+        ops.append(["sched", "abs", (BIG + 3) * S, False, "H", nt(), 1, []])
+        ops.append(["peek", 3])
+    return {"cls": cls, "script": [], "fuel": 400, "ops": ops}
+
+
+def _wide_tie_case(rng, cls):
+    """many events (40-60) for the same instant, most with the same priority: FIFO at scale (heap deeper than a few levels)"""
+    n = rng.randint(40, 60)
+    t = rng.randint(1, 2) * S
+    ops = []
+    for i in range(n):
+        ops.append(["sched", rng.choice(["abs", "abs", "rel"]), t, cls == "DEVS" and rng.random() < 0.5,
+                    rng.choice("DDDDDDHL"), i + 1, rng.randrange(4), []])
+    for _ in range(rng.randint(0, 5)):
+        ops.append(["cancel", rng.randint(1, n)])
+    ops += [["peek", n], ["next"], ["next"], ["until", t, False], ["peek", 3], ["until", t + S, False]]
+    return {"cls": cls, "script": [], "fuel": 400, "ops": ops}
+
+
+def _exotic(rng, v):
+    """the same instant as another kind of number: numpy float64 / int64 scalars, bool (DEVSimulator accepts every numbers.Number)"""
+    x = rng.random()
+    if isinstance(v, float) and v == int(v) and x < 0.35:
+        return {"num": "npi", "v": int(v)} if x < 0.2 or int(v) not in (0, 1) else {"num": "bool", "v": bool(v)}
+    if x < 0.75:
+        return {"num": "npf", "v": v}
+    return v        # (Fraction / Decimal are outside "int and float times": a Fraction clock + 0.0 is a float that may lie before it)
+
+
+def _exotic_case(rng):
+    """the float stream with times handed in as numpy float64 / int64 scalars and bools (oracle only)"""
+    c = _float_case(rng)
+
+    def walk(ops):
+        for o in ops:
+            if o[0] == "sched":
+                if o[1] in ("abs", "rel") and rng.random() < 0.6 and o[2] >= 0:
+                    o[2] = _exotic(rng, float(o[2]))
+                walk(o[7])
+            elif o[0] in ("until", "for") and rng.random() < 0.4:
+                o[1] = _exotic(rng, float(o[1]))
+    walk(c["ops"])
+    return c
+
+
 def gen_cases(rng, tier):
     if tier == "thorough":
         _enable_heap_tie()
-    n = 500 if tier == "quick" else 30000
+    n = 400 if tier == "quick" else 30000
     cases = []
     for i in range(n):
         cls = "ABM" if rng.random() < 0.45 else "DEVS"
@@ -293,13 +373,19 @@ def gen_cases(rng, tier):
             cases.append(_peek_case(rng, cls))
         else:
             cases.append(_inside_case(rng, cls))
-    for _ in range(120 if tier == "quick" else 4000):
+    for _ in range(100 if tier == "quick" else 4000):
         cases.append(_life_case(rng, "ABM" if rng.random() < 0.5 else "DEVS"))
-    for _ in range(100 if tier == "quick" else 3000):
+    for _ in range(80 if tier == "quick" else 3000):
         cases.append(_exc_case(rng, "ABM" if rng.random() < 0.5 else "DEVS"))
+    for _ in range(30 if tier == "quick" else 1500):
+        cases.append(_bigint_case(rng, "DEVS" if rng.random() < 0.7 else "ABM"))
+    for _ in range(10 if tier == "quick" else 200):
+        cases.append(_wide_tie_case(rng, rng.choice(["ABM", "DEVS"])))
+    for _ in range(50 if tier == "quick" else 2000):
+        cases.append(_exotic_case(rng))
     # non-dyadic float times: implementation + oracle only (run_impl answers "model": False for them)
     cases += list(_float_pair_cases(18 if tier == "quick" else 40))
-    for _ in range(150 if tier == "quick" else 4000):
+    for _ in range(120 if tier == "quick" else 4000):
         cases.append(_float_case(rng))
     return cases
 
@@ -333,45 +419,62 @@ def enumerate_cases(tier, broken=False):
         yield _inside_case(rng, rng.choice(["ABM", "DEVS"]))
 
 
-RULE = ("histories = one simulator (ABMSimulator or DEVSimulator, after setup) + a sequence of schedule_event_now/_relative/"
-        "_absolute/_next_tick (int and dyadic float times, ties in time and priority, 6% into the past or at a wrong unit), "
-        "cancel_event, dropping the object whose bound method / function is the callable, 4% of the general histories on a simulator that was never set up, run_until / run_for / run_next_event (4% with a horizon outside the statement), "
-        "peak_ahead(n); events carry user code that itself schedules / cancels / drops; three families: general (60%), "
-        "peek after shuffled pushes (20%), scheduling from inside running events with 35% rejected calls (20%); "
-        "plus a float stream without model run: every pair of one-decimal times now <= t (up to 2.0 quick / 4.0 thorough) with a tie in requested time, from the top level and from inside an event, and 200 (4000) random decimal histories; non-trivial = at least 3 ops and one run call that executed something; distinct = by SHA1 of the history")
+RULE = ("histories = one ABMSimulator / DEVSimulator (set up, or - 4% / the life-cycle family 30% - never set up) + a sequence of "
+        "schedule_event_now/_relative/_absolute/_next_tick, cancel_event, dropping the only strong reference to the callable, run_until / "
+        "run_for / run_next_event, peak_ahead(n), reset(), setup(<new model>); events carry user code that schedules / cancels / drops / raises. "
+        "Families (quick counts): general 400 (ints and dyadic floats, ties in time and priority, 6% past / wrong unit, 4% horizons outside the "
+        "statement), peek after shuffled pushes, scheduling from inside events with 35% rejected calls, life cycle 100, user exceptions 80, "
+        "int times above 2^53 30, 40-60 events at one instant 10 - all run on the implementation AND the Gallina model; oracle-only streams "
+        "(no model run): every pair of one-decimal float times now <= t <= 1.8, 120 random decimal (non-dyadic) histories, 50 histories with "
+        "numpy float64 / int64 scalars and bools as times. Driver: four kinds of weakly referenced callables (bound method, function, "
+        "functools.partial, instance with __call__), holder objects and the model with truth value False, one function_kwargs dict shared by all "
+        "events, positional and keyword spelling of every call alternating, a second simulator consuming event ids in the same process. "
+        "Thorough: the same families x 30-75, the correspondence on the heapq-array model (order of EventList._events compared). "
+        "non-trivial = at least 3 ops and one run call that executed something; distinct = by SHA1 of the history")
 TRUSTED_BASE = [
     "Coq 8.16.1 kernel (coqc); vm_compute for finite facts and for evaluating the model in the correspondence",
-    "no axioms: Print Assumptions reports 'Closed under the global context' for every C14 theorem",
-    "harness/pyexpr.py + harness/tables/devs_code.py (code-level T1): guards, time arithmetic and loop decisions of the simulators and the event list translated to Gallina; their statement skeletons",
-    "harness/tables/devs.py (T1): Priority values, the SimulationEvent.__lt__ tuple, the priority of model.step",
-    "harness/props/devs_common.py driver+observer+Gallina printer (T2, differential testing, not a proof)",
-    "Model/Devs.v is a hand transcription of eventlist.py/simulator.py; the heap is abstracted as a list ordered by __lt__ - justified by "
-    "Model/Heap.v + Model/DevsHeap.v (CPython heapq transcribed; the simulator on the heap array) and the theorems "
-    "C14_heap_refines_sorted_list / C14_heap_simulator_refines; the heap transcription is tied to the real heapq by fixed example arrays and by "
-    "the optional run VERIF_HEAPQ_TIE=1 ./check C14 (array order of EventList._events compared after every operation), not by the default run",
-    "weak references die when the holder object is dropped (CPython refcounting) - modelled, exercised by T2",
+    "no axioms: Print Assumptions reports 'Closed under the global context' for all 73 theorems of Properties/C14.v",
+    "harness/tables/devs.py (T1, tables): Priority values, the SimulationEvent.__lt__ tuple and unique_id = next(itertools.count()), the priority of model.step at every site",
+    "harness/pyexpr.py + harness/tables/devs_code.py (T1, code level): 13 translated constructs (bodies of schedule_event_relative/_absolute/_now/"
+    "_next_tick, _schedule_event, run_for, the run_until decision of both classes, ABMSimulator._execute_event's re-scheduling test, the tests of "
+    "SimulationEvent.execute, EventList.pop_event, EventList.peak_ahead) and one statement skeleton (devs_skeleton: 19 functions, modulo local names, "
+    "message texts, docstrings); a wrong translation would make the bridge lemmas talk about the wrong code - cross-checked by T2",
+    "harness/props/devs_common.py driver + observer + Gallina printer (T2, differential testing, not a proof); exceptions are classified by type and state, never by message",
+    "Model/Devs.v + Model/DevsLife.v are hand transcriptions tied by T1/T2; the heap is abstracted as a list ordered by __lt__ - justified by Model/Heap.v, "
+    "Model/DevsHeap.v, Model/DevsHeapLife.v (CPython heapq transcribed) and the theorems C14_heap_refines_sorted_list / C14_heap_simulator_refines / "
+    "C14_heap_lifecycle_refines; the heapq transcription is compared with CPython (array order after every operation) in every thorough run",
+    "weak references die when the only strong reference is dropped (CPython refcounting) - modelled, exercised by T2",
     "Uint63 primitive hash only in scratch Cases files, never under a theorem",
 ]
 ASSUMPTIONS = [
-    "all times and deltas are multiples of 1/8 with small numerators (exact in binary64); model time = Z counting 1/8",
-    "user callables are the DSL of devs_common.py; a schedule call made from user code is wrapped in try/except",
-    "run_until(t) with t before the current time and non-integer ABMSimulator horizons are outside the statement: generated rarely, modelled, not judged",
-    "non-dyadic float times (decimal tenths / hundredths, DEVSimulator) are checked by the implementation-side oracle only, on the Python floats as "
-    "given: an absolute request keeps exactly the requested float, a relative one gets now + delta as the simulator computes it; the Gallina model is not run on them",
-    "peak_ahead lists non-cancelled events (an event whose callable died is still listed, as in the code)",
+    "the Gallina model counts time in 1/8: ints (also above 2^53) and dyadic floats are exact; non-dyadic floats, numpy scalars and bools are checked by the "
+    "implementation-side oracle only, on the Python numbers as given (an absolute request keeps exactly the requested number, a relative one gets now + delta as the simulator computes it)",
+    "Fraction / Decimal times are outside the statement ('int and float times'): a Fraction clock + 0.0 is a float that may lie before it",
+    "user callables are the DSL of devs_common.py (schedule / cancel / drop / raise); a schedule call made from user code is wrapped in try/except",
+    "run_until(t) with t before now and non-integer ABMSimulator horizons are outside the statement: generated (4%), modelled and compared, not judged; "
+    "the boundary is documented by C14_boundary_run_until_before_now / C14_boundary_backwards_then_past_accepted",
+    "peak_ahead(n) is modelled for n >= 1 and lists non-cancelled events (an event whose callable died is still listed, as in the code)",
+    "not modelled: user code that cancels or schedules model.step itself, model.running (the simulators never read it), peak_ahead(n <= 0); a user "
+    "exception inside a run call leaves the simulation advanced (observation, not a finding)",
 ]
-LEVEL_TEXT = ("Machine-checked Coq theorems over a Gallina transcription of EventList and the simulators (after the three fix: "
-              "commits): the comparison key re-extracted from the source is a strict total order on distinct ids; for every history "
-              "the event list stays ordered with all times >= clock; each executed event is the least live pending event, runs with "
-              "clock = its time, is not cancelled and has a live callable, runs at most once; run_until leaves the clock at the horizon "
-              "with no live event <= horizon left; rejected schedule calls (past, wrong unit) leave the simulator untouched; "
-              "no live event is lost (at least once); every continuation after a rejected call observes the same; "
-              "peak_ahead is the sorted prefix of the live events and its head is the next event to run; a transcription of heapq "
-              "refines the ordered list used by the model. T1 ties key/priorities to the "
-              "source, T2 runs the model against the implementation on every history, and an independent oracle states the property "
-              "on the implementation's own trace.")
-LEVEL_NOTE = ("Theorems are about the model; the heapq transcription (Model/Heap.v, Model/DevsHeap.v) is proved to refine the ordered list the "
-              "model uses and is compared with CPython (array order included) by the optional VERIF_HEAPQ_TIE=1 run. "
-              "Trusted: Coq kernel, the T1 extractors, the driver/observer. No axioms.")
-TECHNIQUE = "Coq proof (invariants by induction over histories and fuel, closed under global context) + source-regenerated tables + vm_compute correspondence"
+LEVEL_TEXT = ("73 machine-checked Coq theorems (8 examples) over a Gallina transcription of EventList, SimulationEvent and both simulators as repaired by the "
+              "three fix: commits (peak_ahead order, negative relative delta, run_next_event re-scheduling model.step), all closed under the global "
+              "context, for ALL histories, user code and fuel: the comparison key re-read from __lt__ is a strict total order on distinct ids; in every "
+              "reachable state - life cycle (reset / setup / no model) included - the list is ordered with ids below the counter and no event before the "
+              "clock, and the event that runs next is the least live one (C14_order, C14_lifecycle_order, C14_fifo); executed events are live, run with "
+              "clock = their time inside [now, horizon], clocks never decrease, run_until ends at the horizon with no live event <= horizon left; no id is "
+              "executed twice, no live event is lost, every event <= t is executed by a completed run_until t (at most / at least once); cancelled events "
+              "and dead callables never run; accepted schedule calls are never in the past nor of the wrong unit; rejected calls, a refused setup() and "
+              "run calls without a model change nothing and every continuation observes the same (C18_devs_atomic_*); user callables that raise stop "
+              "their body, escape from the run call and leave a legal state (C14_raise_*); events scheduled up front run in key order and peak_ahead shows "
+              "that order; a transcription of CPython heapq, the simulator on the heap array and its life cycle refine the model the theorems are about. "
+              "Code-level T1: 13 conditions / function bodies are regenerated from the source on every run and proved equal to the model's (DevsBridge.v, "
+              "robust to harmless rewrites), the headline statements are restated about the generated code (C14_*_of_source). T2 runs the model against the "
+              "implementation on every history; an independent trace oracle states the property on the implementation, including three oracle-only streams "
+              "(non-dyadic floats, numpy scalars / bools).")
+LEVEL_NOTE = ("Theorems are about the model (Model/Devs.v + DevsLife.v); non-dyadic floats, numpy scalars and bools as times are covered by the oracle only. "
+              "Defects of the original tree: #20 peak_ahead order, #21 negative relative delta, (C15) #22 run_next_event - all fixed in /repo, none known. "
+              "Trusted: Coq kernel, the T1 extractors / translator, the driver and observer. No axioms.")
+TECHNIQUE = ("Coq proof (invariants by induction over histories and fuel, simulation relations, refinement of a heapq transcription; closed under the global "
+             "context) + tables and code regenerated from the source with bridge lemmas + vm_compute correspondence + independent trace oracle")
 DESIGN_REF = "DESIGN.md section 4, C14"
